@@ -1,15 +1,31 @@
-(* C09 - the generator is total and its output compiles (name discipline part) *)
+(* C09 - the generator is total and its output compiles (the name-discipline part; "compiles"
+   itself is rustc's judgement and is decided by compiling) *)
 From Coq Require Import List NArith Lia Bool Arith.
-From VL Require Import Idl Gen GenFacts.
+From VL Require Import Idl Gen GenFacts GenProofs.
 Import ListNotations.
 
+(* the generator runs to completion exactly when no field / enum-member / typedef name is one of
+   self, Self, super, crate *)
 Theorem C09_generator_total_iff : forall i,
   generator_panics i = false <-> forall n, In n (raw_idents i) -> is_reserved n = false.
 Proof. exact generator_total_iff. Qed.
 Print Assumptions C09_generator_total_iff.
+
+(* the naming scheme is injective: for every definition whose member names are distinct and
+   underscore-free (the grammar gives both), whose field names are underscore-free with distinct
+   siblings, and whose error parameters have no anonymous types, no two emitted types share a name *)
+Theorem C09_emitted_type_names_distinct : forall i, cond i -> NoDup (emitted_type_names i).
+Proof. exact emitted_names_nodup. Qed.
+Print Assumptions C09_emitted_type_names_distinct.
+
+Theorem C09_names_are_paths : forall t name,
+  map fst (snd (rust_ty name t)) = map (fun p => name ++ sfx p) (paths t).
+Proof. exact rust_ty_names. Qed.
+Print Assumptions C09_names_are_paths.
 
 (* faithful negative results: the known classes are inhabited *)
 Check refuted_error_param_anon_type.
 Check refuted_reserved_ident.
 Check refuted_snake_collision.
 Check refuted_path_collision.
+Check error_anon_duplicates.
